@@ -40,10 +40,15 @@ Placements == [none  |-> <<>>,
 PlacementNames == {"none", "bare", "false", "true", "sub", "both", "subab"}
 
 PkgKinds == <<"defined", "generic", "alias_local", "alias_foreign">>      \* package-level declarations
-(* 28 package-level declarations: every declaration-level placement x kind, named D01..D28 so that name order = index order *)
+(* 28 + 4 package-level declarations: every declaration-level placement x kind, named D01..D28 so that name order = index order *)
 PlacementSeq == <<"none", "bare", "false", "true", "sub", "both", "subab">>
 DeclName(i) == IF i < 10 THEN "D0" \o ToString(i) ELSE "D" \o ToString(i)
-Decls == [i \in 1..28 |-> [name |-> DeclName(i), kind |-> PkgKinds[((i - 1) % 4) + 1], place |-> PlacementSeq[((i - 1) \div 4) + 1]]]
+(* ... and two pairs without tags of their own: a declaration spanning several lines whose closing line carries a trailing comment
+   with a tag line (+gengo:a / +gengo:a=false), directly followed - no blank line, no doc comment - by another declaration.
+   A trailing comment documents nothing: both are decided by the package and the globals alone. *)
+TailKinds == <<"mltrail_on", "after_ml", "mltrail_off", "after_ml">>
+Decls == [i \in 1..32 |-> IF i <= 28 THEN [name |-> DeclName(i), kind |-> PkgKinds[((i - 1) % 4) + 1], place |-> PlacementSeq[((i - 1) \div 4) + 1]]
+                          ELSE [name |-> DeclName(i), kind |-> TailKinds[i - 28], place |-> "none"]]
 
 GenNames == [a |-> <<"a">>, ab |-> <<"ab">>, acb |-> <<"a", "b">>]
 GenSets == { <<"a">>, <<"a", "ab">>, <<"acb", "a">>, <<"ab", "acb">> }       \* generators of one run, in registration order
